@@ -16,8 +16,9 @@ import (
 )
 
 type Config struct {
-	Task string // "anon" (.exec only), "named" (.topic only), "both"
-	SCO  bool
+	Task  string // "anon" (.exec only), "named" (.topic only), "both"
+	SCO   bool
+	IDTag bool // the alert id is built from the group and a tag that is not a group-by dimension
 }
 
 func (c Config) script() string {
@@ -30,6 +31,9 @@ func (c Config) script() string {
 	}
 	if c.SCO {
 		s += ".stateChangesOnly()"
+	}
+	if c.IDTag {
+		s += ".id('{{ .Group }}/{{ index .Tags \"x\" }}')"
 	}
 	return s
 }
@@ -151,7 +155,7 @@ func (h *harness) logs() (anon, named []evrec) {
 }
 
 func (h *harness) feed(c Case, i int) error {
-	p := kit.MkPoint("m", map[string]string{"g": c.IDs[i]}, map[string]any{"l": int64(c.Levels[i])}, kit.T0.Add(time.Duration(i+1)*time.Second))
+	p := kit.MkPoint("m", map[string]string{"g": c.IDs[i], "x": "k"}, map[string]any{"l": int64(c.Levels[i])}, kit.T0.Add(time.Duration(i+1)*time.Second))
 	return h.cur.Write("db", "rp", p)
 }
 
@@ -265,7 +269,11 @@ func boundaryKey(c Case, b boundary) string {
 	if c.Cfg.SCO {
 		sco = "sco"
 	}
-	return fmt.Sprintf("%s:%s:%s:%s-tx%d", c.Cfg.Task, sco, transClass(c, b.point), map[bool]string{false: "before", true: "after"}[b.after], b.txOfPt)
+	task := c.Cfg.Task
+	if c.Cfg.IDTag {
+		task += "+idtag"
+	}
+	return fmt.Sprintf("%s:%s:%s:%s-tx%d", task, sco, transClass(c, b.point), map[bool]string{false: "before", true: "after"}[b.after], b.txOfPt)
 }
 
 func fromOf(b boundary, txCount map[int]int) int {
@@ -376,7 +384,11 @@ func run(t *testing.T, c Case, stats *stat) (ps []problem) {
 	txCount := txCounts(h.boundaries)
 	ids := map[string]bool{}
 	for _, id := range c.IDs {
-		ids["m:g="+id] = true
+		if c.Cfg.IDTag {
+			ids["g="+id+"/k"] = true
+		} else {
+			ids["m:g="+id] = true
+		}
 	}
 	seen := map[string]bool{}
 	add := func(kind, key, msg string) {
@@ -500,7 +512,7 @@ type stat struct{ boundaries, restarts, nonTrivial, second int64 }
 func TestCheck(t *testing.T) {
 	defer kit.CleanupTmp()
 	r := rep.New("C08", "fault_enumeration",
-		"alert state across restarts: tasks whose alert has an anonymous topic (.exec handler), a named topic, or both, with and without stateChangesOnly, topic persistence on, over a real alert service on a real Bolt file; level sequences over {OK,INFO,WARNING,CRITICAL} for one id (all sequences of length 4) and two interleaved ids (all sequences of length 2 each, both orders a,b,a,b and b,a,b,a so that either id sorts first in the store); one uninterrupted run records a copy of the Bolt file before and after the commit of EVERY transaction of the topic state store; for every such boundary: fresh alert service + TaskMaster on the copy, same task, the remaining data re-fed (starting with the point in flight unless it was completely persisted). For tasks with both topics a SECOND crash is enumerated at every transaction boundary of the continuation after the first restart (quick: two-id histories only). Oracle: right after every restart the topic states equal the states in memory at the crash; final topic state equals the uninterrupted run, per handler and id the post-restart events are the uninterrupted run's remaining events, at worst preceded by a repeat of the last event told before the crash. Part B: every history up to the depth bound of the persistence operations an alert node / a task deletion perform on the real alert service over the real Bolt file (Collect and UpdateEvent over 2 topics x 2 ids x {OK,CRITICAL}, DeleteTopic, restart), plus a final restart: after every step the non-OK event states the service reports equal a map. non-trivial = restarts whose restored storage held at least one non-OK state")
+		"alert state across restarts: tasks whose alert has an anonymous topic (.exec handler), a named topic, or both, with and without stateChangesOnly (and once with an id template that reads a tag outside the group-by dimensions), topic persistence on, over a real alert service on a real Bolt file; level sequences over {OK,INFO,WARNING,CRITICAL} for one id (all sequences of length 4) and two interleaved ids (all sequences of length 2 each, both orders a,b,a,b and b,a,b,a so that either id sorts first in the store); one uninterrupted run records a copy of the Bolt file before and after the commit of EVERY transaction of the topic state store; for every such boundary: fresh alert service + TaskMaster on the copy, same task, the remaining data re-fed (starting with the point in flight unless it was completely persisted). For tasks with both topics a SECOND crash is enumerated at every transaction boundary of the continuation after the first restart (quick: two-id histories only). Oracle: right after every restart the topic states equal the states in memory at the crash; final topic state equals the uninterrupted run, per handler and id the post-restart events are the uninterrupted run's remaining events, at worst preceded by a repeat of the last event told before the crash. Part B: every history up to the depth bound of the persistence operations an alert node / a task deletion perform on the real alert service over the real Bolt file (Collect and UpdateEvent over 2 topics x 2 ids x {OK,CRITICAL}, DeleteTopic, restart), plus a final restart: after every step the non-OK event states the service reports equal a map. non-trivial = restarts whose restored storage held at least one non-OK state")
 	defer r.Write()
 	r.Assumption("bbolt commit atomicity is trusted: the file between two commits equals the file after the earlier commit; torn pages are out of scope")
 	r.Assumption("at a crash the events already handed to the (buffered) handlers count as told; events still queued in memory are an at-most-once delivery limit outside the stated crash model")
@@ -532,9 +544,15 @@ func TestCheck(t *testing.T) {
 	if rep.Thorough() {
 		l1, l2 = 5, 3
 	}
-	for _, task := range []string{"anon", "named", "both"} {
+	for _, task := range []string{"anon", "named", "both", "anon+idtag"} {
 		for _, sco := range []bool{false, true} {
 			cfg := Config{Task: task, SCO: sco}
+			if task == "anon+idtag" {
+				if !sco {
+					continue
+				}
+				cfg = Config{Task: "anon", SCO: sco, IDTag: true}
+			}
 			// one id
 			n := 1
 			for i := 0; i < l1; i++ {
